@@ -120,6 +120,8 @@ template<class V, class... As> AnyView call_rec(V&& v, CallArg const* a, int k, 
 
 struct Op { std::string name; std::vector<long> a; std::vector<CallArg> call; };
 
+template<class V, std::size_t... I> AnyView do_reindexed(V&& v, long const* b, std::index_sequence<I...>) { return store(v.reindexed(b[I]...)); }
+
 template<multi::dimensionality_type D> AnyView apply_op(VS<D> const& s, Op const& op) {
 	auto&& mv = mk(s);
 	auto const& cv = mv;
@@ -134,6 +136,11 @@ template<multi::dimensionality_type D> AnyView apply_op(VS<D> const& s, Op const
 		if(n == "rotated") return store(mv.rotated());
 		if(n == "unrotated") return store(mv.unrotated());
 		if(n == "reversed") return store(mv.reversed());
+		if(n == "reindexed") {
+			if(a.size() == 1) return store(mv.reindexed(a[0]));
+			if constexpr(D >= 2) { if(a.size() == 2) return do_reindexed(mv, a.data(), std::make_index_sequence<2>{}); }
+			if constexpr(D >= 3) { if(a.size() == 3) return do_reindexed(mv, a.data(), std::make_index_sequence<3>{}); }
+		}
 		if(n == "call") {
 			int k = static_cast<int>(op.call.size());
 			if(k <= static_cast<int>(D) && k <= 3) { return call_rec(mv, op.call.data(), k); }
